@@ -23,6 +23,7 @@ RULE = (
 ASSUMPTIONS = [
     "a complete 'CSI n;m R' inside the extra input is indistinguishable from a report and is excluded from the generator",
     "the previously recorded cursor row is the reference terminal's cursor row after the last render / the last reported row",
+    "vertical movement is produced the way terminals produce it: downwards by the terminal getting taller (content and cursor move down), upwards by content scrolling up; the cursor never moves below the last row of an unchanged terminal",
 ]
 SHARDS = {"quick": 4, "thorough": 16}
 LOOKALIKE = re.compile(r"(\x1b\[|\x9b)\d+;\d+R")
@@ -161,8 +162,8 @@ def run_diff(case, res):
                 res.label("before_first_render_skipped")
                 continue
             elif op["op"] == "move":
-                term.r = min(max(term.r + op["d"], 0), h - 1)
-                term.wrap = False
+                h = term.move_content(op["d"])
+                pty.set_size(h, w)
             else:
                 nq += 1
                 top_before = win.top_usable_row
@@ -176,7 +177,7 @@ def run_diff(case, res):
                             continue
                         ev["done"] = True
                         if "d" in ev:
-                            term.r = min(max(term.r + ev["d"], 0), h - 1)
+                            pty.set_size(term.move_content(ev["d"]), w)
                         if ev.get("nested"):
                             t0 = win.top_usable_row
                             nested["ret"] = win.get_cursor_vertical_diff()
